@@ -8,6 +8,7 @@ CONSTANTS
   Ops <- TOps
   Aging = TRUE
   TwoStep = TRUE
+  RecAging = TRUE
 CONSTRAINTS Mark NotYetAccepted
 POSTCONDITION Accepted
 CHECK_DEADLOCK FALSE
